@@ -423,6 +423,43 @@ theorem C19_boot_mask_kept (given : List Bool) : bootSeenMask given = given := b
   have h : bootMaskKept = true := by decide
   simp [bootSeenMask, h]
 
+/-- the part of `C19_boot_mask_kept` that holds whatever the constructor call: a bootstrap whose two corner entries are masked anyway
+    (the ordinary case) is seen with exactly the mask it was given, so that bootstraps masking other entries than the data — or than
+    each other — contribute their score over their own jointly unmasked entries.  Missing from the full statement on the current
+    tree: bootstraps with a visible corner (finding F-19c). -/
+theorem C19_boot_mask_kept_partial (given : List Bool) (h0 : given.head? = some true) (hl : given.getLast? = some true) :
+    bootSeenMask given = given := by
+  unfold bootSeenMask
+  split
+  · rfl
+  · apply List.ext_getElem
+    · simp
+    · intro i h1 h2
+      simp only [List.getElem_map, List.getElem_range]
+      have hi : i < given.length := h2
+      have hg : given.getD i false = given[i] := by simp [List.getD_eq_getElem?_getD, List.getElem?_eq_getElem hi]
+      rw [hg]
+      by_cases hz : i = 0
+      · subst hz
+        have : given[0] = true := by
+          rw [List.head?_eq_getElem?] at h0
+          rw [List.getElem?_eq_getElem hi] at h0
+          exact Option.some.inj h0
+        rw [this]; simp
+      · by_cases hL : i + 1 = given.length
+        · have : given[i] = true := by
+            rw [List.getLast?_eq_getElem?] at hl
+            have hidx : given.length - 1 = i := by omega
+            rw [hidx, List.getElem?_eq_getElem hi] at hl
+            exact Option.some.inj hl
+          rw [this]; simp
+        · have e1 : (i == 0) = false := beq_eq_false_iff_ne.mpr hz
+          have e2 : (i + 1 == given.length) = false := beq_eq_false_iff_ne.mpr hL
+          rw [e1, e2, Bool.or_false, Bool.or_false]
+
+example : bootSeenMask [true, false, true, false, false, true] = [true, false, true, false, false, true] :=
+  C19_boot_mask_kept_partial _ rfl rfl
+
 example : llSum [⟨true, false, 0, 0, 0, 0⟩, ⟨false, true, 4, 7, 3 / 2, 9⟩, ⟨false, false, 2, 3, 1 / 2, 2⟩, ⟨true, true, 0, 0, 0, 0⟩]
     = -2 + 3 * (1 / 2) - 2 := by
   rw [(C19_ll_sum_joint _).1]; decide +kernel
